@@ -1289,6 +1289,10 @@ class CryptContext:
         render_value = self._render_ini_value
         parser.add_section(section)
         for k, v in self._config.iter_config():
+            if v is None:
+                # "unset" marker (e.g. from copy(opt=None)); has no INI spelling,
+                # and leaving it out means the same thing.
+                continue
             v = render_value(k, v)
             k = render_key(k)
             parser.set(section, k, v)
